@@ -238,14 +238,14 @@ Theorem rule_call_parseinfo (ev : @ev_t gstate) rl r k st v fb st2 a :
   lookup (memos st) k = None ->
   ev (r_exp rl) (push (newf (fst k))) (if left_recursion ec then memoize ec rl st k OGuard else st) = (Ok v fb, st2) ->
   r_isname rl && is_keyword upper ic ec (fold fb) = false ->
-  act r (fold fb) = ANone -> fold fb = VDict a -> parseinfo ec = true ->
+  act r (fold fb) = ANone -> fold fb = VDict a -> ast_has a key_at = false -> parseinfo ec = true ->
   let info := VInfo r (fst k) (pos fb) (lineat (fst k)) (lineat (pos fb)) in
   let node := VDict (ast_put (ast_put a key_parseinfo info) key_parseinfo2 info) in
   rule_call upper ic ec act lineat ev rl r k st = (ROk node (pos fb), memoize ec rl st2 k (OOk node (pos fb)))
   /\ fst k <= pos fb <= len text.
 Proof.
-  intros T S H HL Hb Hk Ha Hf Hp info node. split.
-  - unfold rule_call. rewrite HL, Hb. unfold post_body. rewrite Hk, Ha. unfold with_parseinfo. rewrite Hp, Hf. reflexivity.
+  intros T S H HL Hb Hk Ha Hf Hat Hp info node. split.
+  - unfold rule_call. rewrite HL, Hb. unfold post_body. rewrite Hk, Ha. unfold with_parseinfo. rewrite Hp, Hf, Hat. reflexivity.
   - assert (S1 : StateOK text (if left_recursion ec then memoize ec rl st k OGuard else st))
       by (destruct (left_recursion ec); [apply memoize_ok; [exact S|exact I]|exact S]).
     assert (HP : pos (push (newf (fst k))) <= len text) by (cbn; exact H).
